@@ -25,6 +25,7 @@ class SpecFun:
         self.triggers = []
         self.ih = []        # extra induction-hypothesis instances
         self.assumed = False
+        self.local = None
         self.decorated = False
         for d in node.decorator_list:
             if (isinstance(d, ast.Name) and d.id == 'spec') or (
@@ -36,6 +37,10 @@ class SpecFun:
                 for kw in d.keywords:
                     if kw.arg == 'unfold':
                         self.unfold = kw.value.value
+                    if kw.arg == 'local':
+                        # (sequence parameter, index parameter): the body
+                        # reads only seq[index-1] and itself at index-1
+                        self.local = tuple(e.value for e in kw.value.elts)
             if isinstance(d, ast.Call) and getattr(d.func, 'id', '') == 'lemma':
                 self.is_lemma = True
                 for kw in d.keywords:
